@@ -464,3 +464,24 @@ def jl_mut_append(E, st, recv, vals):
     if not isinstance(v, VBytes):
         raise Unsupported("VJoinList.append of non-bytes")
     return [(st, VJoinList(z3.Concat(recv.joined, v.e), recv.count + 1), NONE, None)]
+
+
+class VRange(V):
+    """range(stop) / range(start, stop)"""
+    __slots__ = ("start", "stop")
+
+    def __init__(self, start, stop):
+        self.start, self.stop = start, stop
+
+    def iter_spec_v(self, E, st):
+        n = z3.If(self.stop - self.start > 0, self.stop - self.start, 0)
+        return n, (lambda j: VInt(self.start + j))
+
+
+@R.spec("builtins.range")
+def b_range(E, st, args, kw):
+    if len(args) == 1 and isinstance(args[0], VInt):
+        return _one(st, VRange(z3.IntVal(0), args[0].e))
+    if len(args) == 2 and all(isinstance(a, VInt) for a in args):
+        return _one(st, VRange(args[0].e, args[1].e))
+    raise Unsupported("range(...)")
